@@ -16,6 +16,7 @@ SEED_INPUTS = {"self._hashfn", "self.time_fn", "param.random_seed", "self.seed",
 
 
 def run(ctx):
+    ctx.rule("R19.h", "the times saved by open `with time:` contexts are touched only by the context protocol: the only writers of Time._pushed_state are __init__ (empty), __enter__ (push) and __exit__ (pop); nothing else rewrites what a context will restore", floor=2)
     ctx.rule("R19.a", "every random generator's __call__ reseeds (super().__call__()) on all paths before it draws from self.random_generator; "
                       "RandomDistribution.__call__ reseeds under time_dependent; the seed is a function of (name-hash, time, global seed) only; "
                       "Hash.__call__ works on a copy of the digest", floor=9)
@@ -317,6 +318,31 @@ def run(ctx):
                  input="P(a=gen1, b=gen2); p.param._state_push(); p.a; p.b; p.param._state_pop() -> p.a reads b's value")
     else:
         ctx.ok("R19.f", ig, ig.node, "two generators initialised in a row: distinct empty save stacks, cache (None, -1)")
+
+    n_ps = 0
+    for g in ctx.repo.all_funcs("param.parameters"):
+        if g.cls is None or g.cls.name != "Time":
+            continue
+        for st in ast.walk(g.node):
+            w = None
+            if isinstance(st, (ast.Assign, ast.AugAssign)):
+                for t in (st.targets if isinstance(st, ast.Assign) else [st.target]):
+                    b = t.value if isinstance(t, ast.Subscript) else t
+                    if isinstance(b, ast.Attribute) and b.attr == "_pushed_state":
+                        w = st
+            if isinstance(st, ast.Call) and isinstance(st.func, ast.Attribute) and isinstance(st.func.value, ast.Attribute) and st.func.value.attr == "_pushed_state" \
+                    and st.func.attr in ("append", "pop", "clear", "insert", "extend", "remove", "sort", "reverse", "__setitem__"):
+                w = st
+            if w is None:
+                continue
+            n_ps += 1
+            if g.name in ("__init__", "__enter__", "__exit__"):
+                ctx.ok("R19.h", g, w, "Time.%s writes _pushed_state (context protocol)" % g.name)
+            else:
+                ctx.fail("R19.h", g, w, "Time.%s rewrites _pushed_state (`%s`): the times that enclosing `with time:` contexts saved are changed behind their back, so leaving a context restores "
+                                        "another time than the one it was entered at" % (g.name, norm(w)[:60]), key="%s::pushed-state-rewritten" % g.qualname,
+                         input="t(7/2 as Fraction); with t: t(5, time_type=int)  -> after the block t() == 3")
+    ctx.require(n_ps >= 2, "fewer than 2 writers of Time._pushed_state found (%d)" % n_ps)
 
     hash_state_agreement(ctx, "R19.g")
 
